@@ -604,6 +604,14 @@ func c02CallExpectSuccess(c *core.Ctx, st *c02State, resp []byte, script []strin
 			return
 		}
 	}
+	// the tokens are the caller's now: it may reuse their buffers; later finalizations must not depend on them
+	for _, tok := range toks {
+		for _, f := range [][]byte{tok.Nonce, tok.Context, tok.KeyID, tok.Authenticator} {
+			for k := range f {
+				f[k] ^= 0x5a
+			}
+		}
+	}
 	c.Class("lifecycle_honest_finalized")
 	c.Class("accepted_valid")
 }
